@@ -2,10 +2,13 @@
 D1 argument immutability (effects), D2 RNG discipline, D3 ordered fan-out, D4 no hidden state,
 D5 rename-don't-overwrite protocol."""
 import ast
+import itertools
 
 from ..core import (AnalysisError, Program, parents, own_nodes, norm, stmt_of, dominates, names_in)
 from ..effects import Effects, GA_CLASSES
 from .. import rules
+from ..abstools import Table, W, Model, Interp, Undecided
+from ..absval import Raised
 
 LEVEL_TEXT = ('static analysis (effect / alias fix-point over the whole call graph + dominance rules): decides that no pipeline entry point or '
               'non-in-place array method may mutate an argument object, that every random draw is dominated by a constant seed, that pool results'
@@ -357,35 +360,71 @@ def d5_ensure_path(chk, prog):
             # no rebinding of the path between
             chk.decide(ok, "rename-dont-overwrite", f"{qn}: ensure_path({pth}) dominates tabio.write(_, {pth})", f"{qn}::tabio.write(_, {pth})",
                        fi.loc(w), f"no core.ensure_path({pth}) on every path before the write")
+    # ensure_path itself, interpreted over a small file-system model: nothing that exists is ever overwritten or lost
     fi = prog.fn("cnvlib.core.ensure_path")
-    par = parents(fi.node)
-    rens = [n for n in own_nodes(fi.node) if isinstance(n, ast.Call) and norm(n.func) in ("os.rename", "os.replace", "shutil.move") and len(n.args) == 2]
-    if not rens:
-        chk.violate("rename-dont-overwrite", "cnvlib.core.ensure_path::os.rename", fi.loc(), "an existing file is no longer moved out of the way")
-        return
-    ren = rens[0]
-    src, dst = norm(ren.args[0]), norm(ren.args[1])
-    loops = [n for n in own_nodes(fi.node) if isinstance(n, ast.While) and isinstance(n.test, ast.Call)
-             and norm(n.test.func) in ("os.path.isfile", "os.path.exists", "os.path.lexists") and norm(n.test.args[0]) == dst]
-    rst = stmt_of(ren, par)
-    ok = bool(loops) and dominates(loops[0], rst, par) and src == fi.posparams[0]
-    if ok:
-        # dst not rebound between loop end and rename
-        for n in own_nodes(fi.node):
-            if isinstance(n, ast.Assign) and any(norm(t) == dst for t in n.targets):
-                st = n
-                if dominates(loops[0], st, par) and st is not loops[0] and dominates(st, rst, par) and st not in list(ast.walk(loops[0])):
-                    ok = False
-        # the loop must change dst on each iteration (else infinite loop or fixed suffix)
-        body_assigns = [n for n in ast.walk(loops[0]) if isinstance(n, ast.Assign) and any(norm(t) == dst for t in n.targets)]
-        ok = ok and bool(body_assigns)
-        # guard: rename only when the file exists
-        guards = [n for n in own_nodes(fi.node) if isinstance(n, ast.If) and isinstance(n.test, ast.Call) and norm(n.test.func) in ("os.path.isfile", "os.path.exists")
-                  and norm(n.test.args[0]) == src and rst in list(ast.walk(n))]
-        ok = ok and bool(guards)
-    chk.decide(ok, "rename-dont-overwrite", f"ensure_path: os.rename({src}, {dst}) targets the first free numbered name",
-               "cnvlib.core.ensure_path::os.rename", fi.loc(ren),
-               "rename destination is not the name proven absent by the search loop (an older backup could be overwritten)")
+    tb = Table(chk, "rename-dont-overwrite", "ensure_path on a modelled file system: 0..3 earlier backups x plain / nested / missing-directory paths", fi.loc(), fi.qn)
+    import posixpath
+    for path, existing_dirs in (("out.cnn", {"/cwd"}), ("results/out.cnn", {"/cwd", "/cwd/results"}), ("new/deep/out.cnn", {"/cwd"}), ("./out.cnn", {"/cwd"})):
+        for present, backups in itertools.product([False, True], [0, 1, 2, 3]):
+            if not present and backups:
+                continue
+            W.reset()
+            ab = lambda p_: posixpath.normpath(posixpath.join("/cwd", p_))
+            files = {}
+            if present and ab(posixpath.dirname(path) or ".") in existing_dirs:
+                files[ab(path)] = "current"
+                for k in range(1, backups + 1):
+                    files[ab(f"{path}.{k}")] = f"backup{k}"
+            elif present:
+                continue
+            dirs = set(existing_dirs)
+            before = dict(files)
+            model = Model()
+            model.ext["os.path.normpath"] = lambda it, p_: posixpath.normpath(p_)
+            model.ext["os.path.abspath"] = lambda it, p_: ab(p_)
+            model.ext["os.path.dirname"] = lambda it, p_: posixpath.dirname(p_)
+            model.ext["os.path.basename"] = lambda it, p_: posixpath.basename(p_)
+            model.ext["os.path.join"] = lambda it, *a: posixpath.join(*a)
+            model.ext["os.path.isdir"] = lambda it, p_, dirs=dirs: ab(p_) in dirs
+            model.ext["os.path.isfile"] = lambda it, p_, files=files: ab(p_) in files
+            model.ext["os.path.exists"] = lambda it, p_, files=files, dirs=dirs: ab(p_) in files or ab(p_) in dirs
+            model.ext["os.curdir"] = "."
+
+            def makedirs(it, p_, *a, dirs=dirs, **k):
+                q = ab(p_)
+                while q not in dirs and q != "/":
+                    dirs.add(q)
+                    q = posixpath.dirname(q)
+            model.ext["os.makedirs"] = makedirs
+
+            def listdir(it, p_=".", files=files, dirs=dirs):
+                d = ab(p_)
+                if d not in dirs:
+                    raise Raised("FileNotFoundError", p_)
+                return sorted({posixpath.basename(f) for f in files if posixpath.dirname(f) == d})
+            model.ext["os.listdir"] = listdir
+
+            def rename(it, src, dst, files=files):
+                s_, d_ = ab(src), ab(dst)
+                if s_ not in files:
+                    raise Raised("FileNotFoundError", src)
+                files[d_] = files.pop(s_)             # POSIX rename: silently replaces an existing destination
+            model.ext["os.rename"] = rename
+            model.ext["os.replace"] = rename
+            model.ext["shutil.move"] = rename
+            it = Interp(prog, model)
+            out = tb.guard(lambda: ("v", it.run(fi.qn, [path])), f"path={path} present={present} backups={backups}")
+            if out is None:
+                continue
+            kept = sorted(files.values()) == sorted(before.values())
+            free = ab(path) not in files
+            moved_to = [f for f, c in files.items() if c == "current"]
+            want_to = [ab(f"{path}.{backups + 1}")] if present else []
+            untouched = all(files.get(f) == c for f, c in before.items() if c != "current")
+            dir_ok = ab(posixpath.dirname(path) or ".") in dirs
+            tb.cell(kept and free and moved_to == want_to and untouched and dir_ok,
+                    dict(path=path, existed=present, earlier_backups=backups, files_before=sorted(before), files_after=sorted(files), nothing_lost=kept, path_free=free, directory_exists=dir_ok))
+    tb.done("ensure_path overwrites or loses an existing file (k writes to one path must leave k files), or leaves the path occupied / its directory missing")
 
 
 def embedded_positive(chk):
@@ -428,6 +467,17 @@ def run(chk):
 
 
 MUTANTS = [
+    dict(name="backup name not advanced past existing backups", file="cnvlib/core.py", old="        while os.path.isfile(bak_fname):\n            cnt += 1\n            bak_fname = f\"{fname}.{cnt}\"\n", new=""),
+    dict(name="twin: backup search as a for loop over itertools.count", expect="silent", edits=[("cnvlib/core.py", """        cnt = 1
+        bak_fname = f"{fname}.{cnt}"
+        while os.path.isfile(bak_fname):
+            cnt += 1
+            bak_fname = f"{fname}.{cnt}"
+""", """        for cnt in range(1, 1000000):
+            bak_fname = f"{fname}.{cnt}"
+            if not os.path.isfile(bak_fname):
+                break
+""")]),
     dict(name="do_call works on the input (no copy)", file="cnvlib/call.py", old="    outarr = cnarr.copy()\n", new="    outarr = cnarr\n", mention="do_call"),
     dict(name="re-introduce filters.remove on caller's list", file="cnvlib/call.py", old="        filters = list(filters)\n", new="", mention="filters.remove"),
     dict(name="delete seed in center_by_window", file="cnvlib/fix.py", old="    np.random.seed(0xA5EED)\n", new="", mention="center_by_window"),
